@@ -72,6 +72,21 @@ func (m *Model) isClaimValueSym(s *Sym) bool {
 	return len(o) == 1 && o["field:"+m.Claim]
 }
 
+// isTermIdentityLit: the literal compares the field that holds the current term's context with a
+// context parameter: "is the term this caller belongs to still the current one".
+func (m *Model) isTermIdentityLit(l Lit) bool {
+	if m.TermCtx == "" || l.S.Op != "bin" || l.S.Name != "==" || len(l.S.Args) != 2 {
+		return false
+	}
+	for i := 0; i < 2; i++ {
+		a, b := l.S.Args[i], l.S.Args[1-i]
+		if a.String() == m.path(m.TermCtx) && b.Op == "param" && b.V != nil && isNamed(b.V.Type(), "context", "Context") {
+			return true
+		}
+	}
+	return false
+}
+
 // clearPoint returns the instruction of f that clears the claim before `at` on every path:
 // the Store(false) itself, or a call of a library function that clears it on all its paths.
 func (m *Model) clearPoint(f *ssa.Function, at ssa.Instruction) ssa.Instruction {
